@@ -652,6 +652,10 @@ def explicit_twin(cfg):
     if "scaling_function" in bkw:
         bkw["scaling_function"] = scale(bkw["scaling_function"])
     bank = BK[bn](**bkw)
+    if isinstance(kw.get("frame_style"), str):
+        # the explicit twin is written the way source code is: with string literals (the strings of a JSON document are equal to them,
+        # never the same objects)
+        kw["frame_style"] = {"causal": "causal", "centered": "centered"}.get(kw["frame_style"], kw["frame_style"])
     kw["window_function"] = window(kw.get("window_function"))
     if kw["window_function"] is None:
         # left out: the documented default is an object of the class GammaWindow for causal frames, HannWindow otherwise
